@@ -1310,6 +1310,37 @@ def struct_family(rng):
     return [parse_prog_text(t) for t in progs]
 
 
+def algopt_family():
+    """Deterministic family around the closed-form ("algebraic") loop elimination: counter with literal or
+    run-time start, stride of either sign, all four guard kinds x extra loop variables (pass-through,
+    constant-set, swapped pair, accumulating = general induction variable) x empty body / one statement
+    x which variable (or literal) is the break value. Every 5th member of the product (fixed choice)."""
+    out = []
+    n = 0
+    extras_all = [[], ["pass"], ["const"], ["acc"], ["swap"], ["pass", "acc"], ["const", "acc"], ["pass", "const"], ["acc", "acc2"]]
+    for g, st in (("ge", 1), ("gt", 2), ("le", -1), ("lt", -3)):          # break tests; counter goes up for ge/gt, down for le/lt
+        for start in ("0", "3", "p0"):
+            for extras in extras_all:
+                for body in ("empty", "print"):
+                    lvs, upd, names = [], [], []
+                    for e in extras:
+                        if e == "pass": lvs.append("x p1 x"); names.append("x")
+                        elif e == "const": lvs.append("c 0 1"); names.append("c")
+                        elif e == "acc": lvs.append("a p1 na"); upd.append("bin na add a 5"); names.append("a")
+                        elif e == "acc2": lvs.append("b 2 nb"); upd.append("bin nb add b -3"); names.append("b")
+                        elif e == "swap": lvs.append("u p0 w"); lvs.append("w 9 u"); names += ["u", "w"]
+                    bound = {"ge": 10, "gt": 9, "le": -7, "lt": -6}[g]
+                    for brk in ["i", "7"] + names:
+                        n += 1
+                        if n % 5 != 0:
+                            continue
+                        pr = "call print 1 i _ " if body == "print" else ""
+                        text = (f"fn f0 2 while {1 + len(lvs)} i {start} ni {' '.join(lvs)} {{ bin cc {g} i {bound} sif cc 0 {{ brk {brk} }} "
+                                f"{pr}{' '.join(upd)} bin ni add i {st} }} r bin z mul r 2 call print 1 z _ ret z end").replace("  ", " ")
+                        out.append(text)
+    return out
+
+
 def check_sources(ctx, cases, label):
     """cases: list of (pass, cfg, source text)."""
     lines = [f"srcprog {p} {c} | | {t.encode().hex()}" for p, c, t in cases]
@@ -1794,7 +1825,7 @@ def run(ctx):
         corpus_lines += len(lines)
     # 1. kernel correspondence + kernel oracle
     only = os.environ.get("C02_ONLY", "")      # diagnosis only: restrict to one stream (kernel|prog|src)
-    nk = ctx.scale(8000, 80000) if only in ("", "kernel") else 0
+    nk = ctx.scale(5000, 80000) if only in ("", "kernel") else 0
     lines = []
     if nk:
         # deterministic: every position at which a nested loop may mention the outer counter
@@ -1824,7 +1855,7 @@ def run(ctx):
     if not only:
         run_probes(ctx)
     # 3. translation validation on generated MIR programs
-    nprog = ctx.scale(1000, 6000) if only in ("", "prog") else 0
+    nprog = ctx.scale(550, 6000) if only in ("", "prog") else 0
     cases, samples = [], []
     pass_hist = {}
     for k in range(nprog):
@@ -1849,6 +1880,10 @@ def run(ctx):
                 cases.append((p_, 31, sargs, fns))
             for c_ in (16, 31, 24, 0):
                 cases.append(("rounds", c_, sargs, fns)); cases.append(("all", c_, sargs, fns))
+        for text in algopt_family():
+            fns = parse_prog_text(text)
+            for p_, c_ in (("loop", 31), ("rounds", 31), ("all", 4)):
+                cases.append((p_, c_, [(0, 5), (4, -2), (-30, 1)], fns))
     pstats = {"changed": set(), "compared": 0, "traps": 0, "timeouts": 0, "lines": 0}
     B = 400
     for i in range(0, len(cases), B):
@@ -1860,7 +1895,7 @@ def run(ctx):
             pstats[k] += s[k]
     # 4. MIR compiled from generated samlang sources through the real front end
     avoid = frozenset(f["id"] for f in ctx.open_findings)
-    nsrc = ctx.scale(120, 1500) if only in ("", "src") else 0
+    nsrc = ctx.scale(70, 1500) if only in ("", "src") else 0
     scases, src_sample = [], None
     if nsrc:
         rich = gen_source_rich_nostr(rng.fork())
@@ -1884,12 +1919,12 @@ def run(ctx):
         for kk in ("compared", "lines", "timeouts", "rejected"):
             sstats[kk] += st[kk]
     # 5. end-to-end: the shipped compile_sources and other configurations vs the un-optimised build, under Node
-    ne2e = (ctx.scale(6, 40) if only in ("", "e2e") else 0)
+    ne2e = (ctx.scale(4, 40) if only in ("", "e2e") else 0)
     estats = {"compared": 0, "programs": 0, "no_node": 0, "rejected": 0}
     e2e_sample = None
     _rich_placeholder = None
     # deterministic family first: every statement kind, each pass switched on alone and all together
-    for k in range((ctx.scale(2, 6) if only in ("", "e2e") else 0)):
+    for k in range((ctx.scale(1, 6) if only in ("", "e2e") else 0)):
         if len(ctx.violations) >= 3:
             break
         text = gen_source_rich(rng.fork())
